@@ -49,7 +49,7 @@ func (c *Ctx) CollectRaces() {
 					if m == nil {
 						continue
 					}
-					if strings.HasPrefix(m[1], "/repo/internal/") && !strings.HasSuffix(m[1], "_test.go") {
+					if strings.HasPrefix(m[1], repoRoot()+"/internal/") && !strings.HasSuffix(m[1], "_test.go") {
 						if top == "" {
 							top = m[1]
 						}
@@ -67,7 +67,7 @@ func (c *Ctx) CollectRaces() {
 				}
 				seen[key] = true
 				product++
-				c.Violation(Signature{"class": "data_race", "a": strings.TrimPrefix(fa, "/repo/"), "b": strings.TrimPrefix(fb, "/repo/")},
+				c.Violation(Signature{"class": "data_race", "a": strings.TrimPrefix(fa, repoRoot()+"/"), "b": strings.TrimPrefix(fb, repoRoot()+"/")},
 					fmt.Sprintf("data race between %s and %s", fa, fb), map[string]any{"report": "WARNING: DATA RACE" + truncate(block, 6000)})
 			} else {
 				c.Inconclusive("race report outside product code (harness bug?): " + truncate(block, 1500))
@@ -76,6 +76,14 @@ func (c *Ctx) CollectRaces() {
 	}
 	c.Set("race_reports", reports)
 	c.Set("race_reports_in_product_code", product)
+}
+
+// repoRoot: the tree under test (/repo unless a background sweep set VERIF_REPO).
+func repoRoot() string {
+	if r := strings.TrimRight(os.Getenv("VERIF_REPO"), "/"); r != "" {
+		return r
+	}
+	return "/repo"
 }
 
 func truncate(s string, n int) string {
